@@ -193,6 +193,16 @@ theorem consumeLoop_good {id : Nat} : ∀ (fuel : Nat) {s : RState} {requests sk
         have hrest1 : ReqsOK (N s1) rest := by rw [n1]; exact hrest
         have hs1 : ReqsOK (N s1) skipped := by rw [n1]; exact hs
         have hone : ReqsOK (N s1) [req1] := ReqsOK.cons hreq1 (ReqsOK.nil _)
+        obtain ⟨tm, etm⟩ := noteTurn_eq s s1 req1
+        simp only [etm]
+        replace d1 : DInv ({ s1 with turnMoved := tm } : RState) := d1.congr rfl rfl rfl rfl rfl rfl rfl
+        replace l1 : Live ({ s1 with turnMoved := tm } : RState) id := l1
+        replace hq1 : ({ s1 with turnMoved := tm } : RState).readyqueue.getLast? = some id := hq1
+        replace nt1 : ({ s1 with turnMoved := tm } : RState).notifications = s.notifications := nt1
+        replace hreq1 : req1.filterIdx < N ({ s1 with turnMoved := tm } : RState) := hreq1
+        replace hrest1 : ReqsOK (N ({ s1 with turnMoved := tm } : RState)) rest := hrest1
+        replace hs1 : ReqsOK (N ({ s1 with turnMoved := tm } : RState)) skipped := hs1
+        replace hone : ReqsOK (N ({ s1 with turnMoved := tm } : RState)) [req1] := hone
         split
         · exact (pause_trackv_good d1 l1 hq1 ((hrest1.append hone).append hs1)).mono fun s' q => ⟨q.1, by rw [q.2, nt1]⟩
         · exact (pause_trackv_good d1 l1 hq1 ((hrest1.append hone).append hs1)).mono fun s' q => ⟨q.1, by rw [q.2, nt1]⟩
@@ -226,6 +236,7 @@ theorem consume_good {s : RState} (h : BInv s) : Good A (fun r => BInv r.1) (con
       · rename_i e he; exact Good.error_of he hl
       · rename_i s3 h3
         have q3 := Good.ok_of h3 hl
-        exact ⟨q3.1, by rw [q3.2, nt2]; exact h.2⟩
+        gbind (wakeTurnMoved_good (A := A) q3.1) with s4 h4 q4
+        exact ⟨q4.1, by rw [q4.2, q3.2, nt2]; exact h.2⟩
 
 end Router
